@@ -249,7 +249,7 @@ func record(sub string, c interface{}, v Verdict) (fail bool, replay string) {
 			if v.Sig == "" {
 				k = "VIOL (nosig) " + sub
 			}
-			if st.out.Labels[k] == 0 {
+			if st.out.Labels[k] < 40 {
 				st.out.Notes = append(st.out.Notes, k+" :: "+v.Msg)
 			}
 			st.out.Labels[k]++
